@@ -12,7 +12,9 @@ RULE = (
     "multi-select x default {none, index, index string / index list} x attempts {unlimited, 1, 2, 3}: every answer "
     "script of up to 3 lines (thorough 4) over the 15-entry answer alphabet {empty, index, spaced index, +1, -1, out "
     "of range, value, other case, ambiguous / duplicated value, 'a,b', '0, 2', 'a,,b', garbage, last index, second "
-    "value}, each ending in end of input; Hypothesis: generated choice lists (1-5 entries) and scripts; confirmation: "
+    "value}, each ending in end of input; Hypothesis: generated choice lists (1-5 entries) and scripts; re-ask: ONE "
+    "question object asked 2-3 times, each ask on a fresh I/O with its own generated script and judged like a first "
+    "ask (non-trivial there: a finite limit and an earlier ask that needed a retry); confirmation: "
     "patterns x defaults x answers; every kind also on a non-interactive input. The input is a scripted stream "
     "with a read budget, the error output counts prompt writes. Non-trivial: a script with an invalid line followed "
     "by a valid one, a script that runs into end of input, or a multi-select answer. Enumerated dialogues are "
@@ -163,10 +165,47 @@ def check_choice(ctx, case, by_construction=False):
     want, want_reads, want_invalid = model_dialogue(choices, multi, default, attempts, script)
     nt = multi or want[0] == "aborted" or (want[0] == "ok" and want_invalid > 0)
     ctx.case("choice", case, nt, ["c18:" + want[0]], distinct_by_construction=by_construction)
-    io, inp, out, err = make_io(script)
     q = ChoiceQuestion("pick one", list(choices), default)
     q.set_multi_select(multi)
     q.set_max_attempts(attempts)
+    ask_and_judge(ctx, "choice", case, q, script)
+
+
+def check_reask(ctx, case):
+    """ONE question object asked several times, each time on a fresh I/O with its own script: every ask is judged
+    by the same dialogue model as a first ask (the attempt limit is a property of the question, not a budget
+    shared by its asks)."""
+    from clikit.ui.components import ChoiceQuestion
+    from clikit.ui.components.question import Question
+
+    Question._has_stty_available = lambda self: False
+    choices, multi, default, attempts = case["choices"], case["multi"], case["default"], case["attempts"]
+    outcomes = [model_dialogue(choices, multi, default, attempts, sc) for sc in case["scripts"]]
+    retried_before = any(o[2] > 0 for o in outcomes[:-1])
+    ctx.case("re-ask", case, retried_before and attempts is not None,
+             ["c18:reask-after-" + o[0][0] + ("-with-retry" if o[2] else "") for o in outcomes[:-1]])
+    q = ChoiceQuestion("pick one", list(choices), default)
+    q.set_multi_select(multi)
+    q.set_max_attempts(attempts)
+    for i, script in enumerate(case["scripts"]):
+        if not ask_and_judge(ctx, "re-ask", case, q, script, "ask-%d" % i):
+            return
+        if q.max_attempts != attempts:
+            ctx.fail("re-ask", "C18.attempts", case, {"configured limit": attempts},
+                     {"after": "ask-%d" % i, "max_attempts": q.max_attempts}, sig="limit-changed")
+            return
+
+
+def ask_and_judge(ctx, part, case, q, script, label="ask"):
+    """Ask q on a fresh I/O fed with script and compare with the dialogue model. Returns False after a failure."""
+    choices, multi, default, attempts = case["choices"], case["multi"], case["default"], case["attempts"]
+    want, want_reads, want_invalid = model_dialogue(choices, multi, default, attempts, script)
+    io, inp, out, err = make_io(script)
+
+    def fail(clause, expected, observed, sig=None, exc=None):
+        if label != "ask":
+            observed = {"at": label, "script": script, "observed": observed}
+        ctx.fail(part, clause, case, expected, observed, sig=sig, exc=exc)
 
     def ask():
         try:
@@ -179,44 +218,45 @@ def check_choice(ctx, case, by_construction=False):
     try:
         got = run_guarded(ask, (), wall=10.0, steps=2000000)
     except NonTermination as e:
-        ctx.fail("choice", "C18.terminates", case, "the question ends", str(e), sig="non-termination")
-        return
+        fail("C18.terminates", "the question ends", str(e), sig="non-termination")
+        return False
     errors_printed = err.fetch().count("\x1b[31;1m")
     if got[0] == "budget":
-        ctx.fail("choice", "C18.terminates", case, list(want), got[1], sig="asks-forever")
-        return
+        fail("C18.terminates", list(want), got[1], sig="asks-forever")
+        return False
     if got[0] == "ok":
         val = got[1]
         members = val if isinstance(val, list) else [val]
         if multi != isinstance(val, list) or any(m not in choices for m in members):
-            ctx.fail("choice", "C18.member", case, "a member of %r" % (choices,), repr(val), sig="member")
-            return
+            fail("C18.member", "a member of %r" % (choices,), repr(val), sig="member")
+            return False
         if want[0] != "ok" or val != want[1]:
-            ctx.fail("choice", "C18.same-as-model", case, list(want), ["ok", val], sig="answer")
-            return
+            fail("C18.same-as-model", list(want), ["ok", val], sig="answer")
+            return False
         if errors_printed != want_invalid:
-            ctx.fail("choice", "C18.attempts", case, "%d errors printed" % want_invalid, errors_printed, sig="errors-printed")
+            fail("C18.attempts", "%d errors printed" % want_invalid, errors_printed, sig="errors-printed")
     else:
         exc = got[1]
         if want[0] == "ok":
-            ctx.fail("choice", "C18.same-as-model", case, list(want), "raised", exc=exc)
-            return
+            fail("C18.same-as-model", list(want), "raised", exc=exc)
+            return False
         if want[0] == "aborted":
             if not (isinstance(exc, RuntimeError) and "Aborted" in str(exc)):
-                ctx.fail("choice", "C18.terminates", case, "gives up with 'Aborted' at end of input", repr(exc), sig="abort-error")
-                return
+                fail("C18.terminates", "gives up with 'Aborted' at end of input", repr(exc), sig="abort-error")
+                return False
             if errors_printed != want_invalid:
-                ctx.fail("choice", "C18.attempts", case, "%d errors printed" % want_invalid, errors_printed, sig="errors-printed")
+                fail("C18.attempts", "%d errors printed" % want_invalid, errors_printed, sig="errors-printed")
         else:
             # exhausted: exactly N invalid entries, N-1 printed, the last one raised
             if errors_printed != want_invalid - 1:
-                ctx.fail("choice", "C18.attempts", case, "%d errors printed + 1 raised" % (want_invalid - 1), errors_printed,
-                         sig="errors-printed")
+                fail("C18.attempts", "%d errors printed + 1 raised" % (want_invalid - 1), errors_printed,
+                     sig="errors-printed")
     if inp.reads != want_reads:
-        ctx.fail("choice", "C18.same-as-model" if want[0] != "aborted" else "C18.terminates", case,
-                 "%d lines read" % want_reads, inp.reads, sig="reads")
+        fail("C18.same-as-model" if want[0] != "aborted" else "C18.terminates",
+             "%d lines read" % want_reads, inp.reads, sig="reads")
     if out.fetch():
-        ctx.fail("choice", "C18.same-as-model", case, "nothing on the standard output", out.fetch(), sig="stdout")
+        fail("C18.same-as-model", "nothing on the standard output", out.fetch(), sig="stdout")
+    return True
 
 
 def check_index_value(ctx, case):
@@ -295,7 +335,7 @@ def check_non_interactive(ctx, case, by_construction=False):
                  {"got": repr(got), "reads": inp.reads, "written": err.fetch() + out.fetch()})
 
 
-PARTS = {"choice": check_choice, "index-value": check_index_value, "confirm": check_confirm,
+PARTS = {"choice": check_choice, "re-ask": check_reask, "index-value": check_index_value, "confirm": check_confirm,
          "non-interactive": check_non_interactive}
 
 
@@ -333,7 +373,21 @@ def random_choice_case():
     return case()
 
 
-HYP = {"choice": (lambda ctx: random_choice_case(), check_choice)}
+def reask_case():
+    @st.composite
+    def case(draw):
+        c = draw(random_choice_case())
+        ch = c["choices"]
+        answers = ANSWERS + ch + [str(i) for i in range(len(ch))] + [",".join(ch[:2])]
+        scripts = [c.pop("script")] + [draw(st.lists(st.sampled_from(answers), max_size=5)) for _ in range(draw(st.integers(1, 2)))]
+        c["scripts"] = scripts
+        c["attempts"] = draw(st.sampled_from([None, 1, 2, 3, 3]))
+        return c
+
+    return case()
+
+
+HYP = {"choice": (lambda ctx: random_choice_case(), check_choice), "re-ask": (lambda ctx: reask_case(), check_reask)}
 
 def run(ctx):
     quick = ctx.tier == "quick"
@@ -342,6 +396,7 @@ def run(ctx):
                                   for d in range(3) for a in (None, 1, 2, 3)])
     ctx.exhaustive("choice", True, "4 choice lists x single/multi x 3 defaults x 4 attempt limits x all scripts up to length %d" % maxlen)
     ctx.hyp_sharded("choice", 4000 if quick else 60000, salt=1)
+    ctx.hyp_sharded("re-ask", 4000 if quick else 60000, salt=2)
     for ch in (["a", "b", "c"], ["alpha", "beta"], ["x"], ["a b", "c-d", "e_f"]):
         for i in range(len(ch)):
             check_index_value(ctx, {"choices": ch, "index": i})
